@@ -19,7 +19,7 @@ RULE = (
     "structural mutate-attempts on every public mutator of Node/Calc/Dist/Var, attempts to put in-model "
     "nodes into another model (Model([...]), GraphBuilder.build_model/update/transform), deepcopy, "
     "build_model(copy=True) twice, save/load (file, buffer), copy_nodes_and_vars->rebuild, pop->rebuild, "
-    "set_seed}; plus deliberately duplicate-named and cyclic graphs. After every rejected attempt the "
+    "set_seed}; copying operations that fail on an uncopyable value; plus deliberately duplicate-named and cyclic graphs. After every rejected attempt the "
     "structural snapshot must be unchanged and the model must stay coherent under further assignments; "
     "every round-trip model is compared in state and behaviour (C01 monitor) and for independence. "
     "non-trivial = program with a shared input, an unnamed node and >= 1 round trip; distinct by program hash"
